@@ -25,10 +25,63 @@ def projection(obs, A, norm):
     return names(norm or [])
 
 
+OTHER = ('<xs:schema xmlns:xs="http://www.w3.org/2001/XMLSchema" xmlns:u="urn:unrelated:sibling" targetNamespace="urn:unrelated:sibling">'
+         '<xs:complexType name="UnrelatedSibling"><xs:sequence><xs:element name="x" type="xs:string"/></xs:sequence></xs:complexType></xs:schema>\n')
+
+
+def swapcase_name(n):
+    stem, dot, ext = n.rpartition(".")
+    return (stem.swapcase() + dot + ext) if stem else n.swapcase()
+
+
+def siblings(c, cases):
+    """the third sentence of the property, tested directly: adding, removing or changing a file that is not reachable from the start file
+    does not change the output (byte comparison). Added siblings: an unrelated valid schema, text that is not XML, files whose names differ
+    from the start file / from a reachable file only in letter case (different content), a file with the extension in upper case."""
+    import os
+    import shutil
+    base = [cs for cs in cases if cs.get("ref") is not None and cs["impl"].startswith("ok") and os.path.exists(cs.get("impl_rs", ""))]
+    base = base[: (40 if c.tier == "quick" else 400)]
+    variants = []
+    for i, cs in enumerate(base):
+        files = sorted(os.listdir(cs["in"]))
+        reach = cs["meta"].get("reachable") or files
+        plans = [("unrelated-valid-sibling", {"zz_unrelated.xsd": OTHER}, []), ("non-xml-sibling", {"00_notes.xsd": "this is not XML <<<"}, []),
+                 ("case-variant-of-start-file", {swapcase_name(cs["start"]): OTHER}, []),
+                 ("upper-case-extension-of-start-file", {cs["start"].rsplit(".", 1)[0] + "." + cs["start"].rsplit(".", 1)[-1].upper(): OTHER}, [])]
+        others = [f for f in reach if f != cs["start"]]
+        if others:
+            plans.append(("case-variant-of-an-imported-file", {swapcase_name(others[0]): OTHER}, []))
+        unreach = [f for f in files if f not in reach]
+        if unreach:
+            plans.append(("unreachable-file-removed", {}, [unreach[0]]))
+            plans.append(("unreachable-file-changed", {unreach[0]: OTHER}, []))
+        for k, (what, add, remove) in enumerate(plans):
+            if any(n in files for n in add if what not in ("unreachable-file-changed",)):
+                continue
+            d = os.path.join(os.path.dirname(cs["dir"]), f"sib{i}_{k}")
+            shutil.copytree(cs["in"], os.path.join(d, "in"))
+            for n, t in add.items():
+                open(os.path.join(d, "in", n), "w").write(t)
+            for n in remove:
+                os.remove(os.path.join(d, "in", n))
+            variants.append({"dir": d, "in": os.path.join(d, "in"), "start": cs["start"], "meta": {"features": "sibling " + what, "seed": cs["meta"].get("seed")}, "ref": None, "orig": cs, "what": what})
+    g.run_impl(variants, want_obs=False, want_dump=False)
+    fails = []
+    tally = {}
+    for v in variants:
+        tally[v["what"]] = tally.get(v["what"], 0) + 1
+        same = v["impl"] == v["orig"]["impl"] and v["impl"].startswith("ok") and open(v["impl_rs"], "rb").read() == open(v["orig"]["impl_rs"], "rb").read()
+        if not same:
+            fails.append(("unreachable-sibling-changes-output", f"{v['what']}: output with the sibling differs from the output without it ({v['orig']['impl']} vs {v['impl']}); files {sorted(os.listdir(v['in']))}, start {v['start']}", v))
+    c.cov["unreachable_siblings"] = {"base_inputs": len(base), "variants": tally, "differing": len(fails)}
+    return fails + st.refinement_coverage(c, cases)
+
+
 def run(tier, seed):
     return st.run_structural(
         "C11", tier, seed, "ZeepVerif.Props.C11", "ZeepVerif/Audit/C11.lean",
-        [("gencyc", 300, 8000), ("gen", 350, 4000), ("gentopo", 100, 2000)], oracle, projection, CHECKER, extra_props=[('ZeepVerif.Props.C11Read', 'ZeepVerif/Audit/C11Read.lean')], extra=st.refinement_coverage,
+        [("gencyc", 300, 8000), ("gen", 350, 4000), ("gentopo", 100, 2000)], oracle, projection, CHECKER, extra_props=[('ZeepVerif.Props.C11Read', 'ZeepVerif/Audit/C11Read.lean'), ('ZeepVerif.Props.C13All', 'ZeepVerif/Audit/C13All.lean')], extra=siblings,
         note_assumptions=["the traversal theorems are about `visit`, the import skeleton of reader.rs (mark, then follow imports); its agreement with the "
                           "full model and the implementation is what the correspondence part checks on every graph",
                           "in the cyclic profile lookup references (ref=, base=) stay inside their file: a reference into a file that is still being read cannot be resolved by zeep's per-file documents (DESIGN.md section 6)"],
